@@ -201,6 +201,79 @@ def gen_tree(rng, kind='boss', layout='tree', allfib=False, decoy=False, photopl
     return tree
 
 
+def gen_alias_tree(rng, kind='boss', layout='tree', allfib=False):
+    """plate-MJD files that any narrow or lossy way of keying a plate-MJD would take for one and the same file:
+    A  plates P and P + 65536 observed on the same MJD (equal in the low 16 bits: a shifted / packed 32-bit key wraps)
+    B  plates P and P + 32768 on the same MJD (equal in the low 15 bits; 32767 | 32768 is where int16 ends)
+    C  plate a on MJD b and plate b on MJD a (plates numbered like MJDs: every symmetric key - sum, xor, product - agrees)
+    D  (P, M) and (P + d, M - d): equal plate + MJD
+    plus an EARLIER MJD of the low plate of A (so that mjd omitted still means the shared night), and one bystander plate
+    on a power-of-two boundary.  Every file differs in pixel count and wavelength solution.  Returns (tree, pairs)."""
+    sdss = kind == 'sdss'
+    lo, hi = (51600, 55024) if sdss else (55025, 59990)
+    files, pairs, nfib_of, used_pix = [], {}, {}, set()
+
+    def add(p, m):
+        if any(f[0] == p and f[1] == m for f in files):
+            return None
+        nf = nfib_of.setdefault(p, rng.randint(4, 12)) if allfib else rng.randint(4, 12)
+        npix = rng.choice([x for x in range(4, 61) if x not in used_pix])
+        used_pix.add(npix)
+        f = [p, m, nf, npix, round(rng.uniform(3.5, 3.6), 4), rng.choice([1e-4, 1e-4, 2e-4, 1.5e-4])]
+        files.append(f)
+        return f
+
+    def pair(name, a, b):
+        fa, fb = add(*a), add(*b)
+        if fa is not None and fb is not None:
+            pairs[name] = [[fa[0], fa[1]], [fb[0], fb[1]]]
+
+    night = rng.randint(lo + 8, hi - 8)
+    p = rng.choice([rng.randint(1, 9), rng.randint(10, 99), rng.randint(100, 999), rng.randint(1000, 9999),
+                    rng.randint(10000, 34463)])
+    pair('A', (p, night), (p + 65536, night))
+    add(p, night - rng.randint(1, 4))
+    p = rng.choice([rng.randint(1, 9999), rng.randint(1, 67231), 32767, 1])
+    m = rng.choice([night, rng.randint(lo, hi)])
+    pair('B', (p, m), (p + 32768, m))
+    a, b = rng.sample(range(lo, hi + 1), 2)
+    pair('C', (a, b), (b, a))
+    p, m, d = rng.randint(1, 9990), rng.randint(lo + 4, hi), rng.randint(1, 3)
+    pair('D', (p, m), (p + d, m - d))
+    add(rng.choice([65535, 65536, 32768, 99999, 16384]), rng.choice([night, rng.randint(lo, hi)]))
+    rng.shuffle(files)
+    photoplate = rng.choice(['match', 'match', None]) if sdss else rng.choice(['plate', 'plate', None, 'match'])
+    run2d = rng.choice(['26', '103', '104']) if sdss else rng.choice(['v5_7_0', 'v5_4_45', 'v5_10_0', 'test'])
+    run1d = rng.choice(['', run2d]) if sdss else rng.choice([run2d, run2d, 'v5_7_2', 'rm1d'])
+    tree = {'kind': kind, 'run2d': run2d, 'run1d': run1d, 'layout': layout, 'zbest': rng.random() < 0.85,
+            'photoplate': photoplate, 'platelist': bool(allfib and not sdss), 'plates': files, 'decoy': None,
+            'tabvar': rng.getrandbits(16) if rng.random() < 0.5 else None,
+            'hdrvar': rng.getrandbits(16) if rng.random() < 0.5 else None}
+    return tree, pairs
+
+
+def alias_counters(trip, out, mjd_omitted):
+    """which of the aliasing pairs one request names (both files of the pair in the same call)"""
+    asked = set((p, m) for p, m, f in trip)
+    sums = {}
+    for p, m in asked:
+        sums.setdefault(p + m, set()).add(p)
+    hit = set()
+    for p, m in asked:
+        if (p + 65536, m) in asked:
+            hit.add('req_plates_differ_65536_same_mjd')
+        if (p + 32768, m) in asked:
+            hit.add('req_plates_differ_32768_same_mjd')
+        if p != m and (m, p) in asked:
+            hit.add('req_plate_mjd_swapped_pair')
+        if len(sums[p + m]) > 1:
+            hit.add('req_plate_mjd_equal_sum')
+    for h in hit:
+        out.count(h)
+        if mjd_omitted:
+            out.count(h + '_mjd_omitted')
+
+
 def prefix_requests(rng, tree, kw, shadow='good'):
     """requests aimed at plates whose number is the textual prefix of another plate's: MJD omitted for the short one,
     explicit MJD for a request mixing both"""
@@ -229,7 +302,15 @@ def _pick_fibre(rng, nfib):
     return rng.choice([1, nfib, rng.randint(1, nfib), rng.randint(1, nfib), rng.randint(1, nfib)])
 
 
-def gen_request(rng, tree, style, kw=(), shadow='good', per_file=1, min_n=1):
+def _chosen_with(rng, pool, must, extra):
+    """the files in ``must`` (all of them) plus up to ``extra`` others of the pool"""
+    must = [f for f in pool if any(f[0] == g[0] and f[1] == g[1] for g in must)]
+    rest = [f for f in pool if f not in must]
+    return must + rng.sample(rest, min(len(rest), extra))
+
+
+def gen_request(rng, tree, style, kw=(), shadow='good', per_file=1, min_n=1, must=None, long=False):
+    """must: plate-MJD files that the request names in any case (vector-plate styles); long: 100-300 requests"""
     files = tree['plates']
     lat = _latest(files)
     latest_files = [f for f in files if f[1] == lat[f[0]]]
@@ -239,9 +320,15 @@ def gen_request(rng, tree, style, kw=(), shadow='good', per_file=1, min_n=1):
     maxm = max(f[1] for f in files)
     maxp = max(f[0] for f in files)
     if style in ('vvv', 'vNv'):
-        k = min(len(pool), rng.choice([1, 2, 3, 3, 4, 5, 5]))
-        chosen = rng.sample(pool, k)
+        if must:
+            chosen = _chosen_with(rng, pool, must, len(pool) if long else rng.randint(0, 3))
+            k = len(chosen)
+        else:
+            k = min(len(pool), rng.choice([1, 2, 3, 3, 4, 5, 5]))
+            chosen = rng.sample(pool, k)
         n = rng.randint(k, rng.choice([k, 8, 30]) if k <= 8 else k)
+        if long:
+            n = rng.randint(100, 300)
         n = max(n, k * per_file, min_n)
         rows = [(f, _pick_fibre(rng, f[2])) for f in chosen for _ in range(per_file)]
         while len(rows) < n:
@@ -282,9 +369,13 @@ def gen_request(rng, tree, style, kw=(), shadow='good', per_file=1, min_n=1):
         req['mform'] = vec_form(rng, True, maxm, 1) if isinstance(req['mjd'], list) else scalar_form(rng, maxm)
         req['fform'] = vec_form(rng, True, 0, n)
     elif style in ('vvs', 'vNs'):
-        k = min(len(pool), rng.randint(2, 5))
-        chosen = rng.sample(pool, k)
-        n = rng.randint(k, 12)
+        if must:
+            chosen = _chosen_with(rng, pool, must, rng.randint(0, 2))
+            k = len(chosen)
+        else:
+            k = min(len(pool), rng.randint(2, 5))
+            chosen = rng.sample(pool, k)
+        n = rng.randint(k, max(k, 12))
         rows = list(chosen) + [rng.choice(chosen) for _ in range(n - k)]
         rng.shuffle(rows)
         if rng.random() < 0.3:
@@ -321,8 +412,12 @@ def gen_request(rng, tree, style, kw=(), shadow='good', per_file=1, min_n=1):
         req['mform'] = scalar_form(rng, maxm)
         req['fform'] = 'int'
     elif style == 'all_vN':
-        k = min(len(latest_files), rng.randint(2, 3))
-        chosen = rng.sample(latest_files, k)
+        if must:
+            chosen = _chosen_with(rng, latest_files, must, rng.randint(0, 1))
+            k = len(chosen)
+        else:
+            k = min(len(latest_files), rng.randint(2, 3))
+            chosen = rng.sample(latest_files, k)
         onedge = [g for g in latest_files if g[1] in (55024, 55025) and g not in chosen]
         if onedge and rng.random() < 0.6:
             chosen[rng.randrange(k)] = onedge[0]
@@ -389,6 +484,11 @@ class C16(Check):
             'one flat path= directory, asked with MJD omitted; in 3 of 4 trees the spPlate primary headers also carry CRVAL1/CD1_1/'
             'CRPIX1/CDELT1/CTYPE1/DC-FLAG/WAT cards in SDSS style, referred to CRPIX1 != 1, or inconsistent with COEFF0/COEFF1, and '
             'the other HDUs repeat COEFF0/COEFF1 with other values - the expectation is always COEFF0 + COEFF1*pixel of HDU 0.  '
+            'Aliased plate-MJDs: trees holding, with different pixel counts and solutions, plates P and P+65536 on one MJD '
+            '(equal in the low 16 bits), P and P+32768 on one MJD, plate a on MJD b with plate b on MJD a, (P, M) with '
+            '(P+d, M-d), and a plate on 16384/32768/65535/65536/99999; both files of a pair are named in one call (vector '
+            'requests with and without mjd, scalar fibre, all fibres) and each alone; object lists of 100-300 requests over all '
+            '9-10 files of such a tree.  '
             'History: the tree itself changes between the calls of one case (a later MJD of a plate already read is delivered, '
             'the latest MJD withdrawn, an earlier MJD or a new plate directory added, a file replaced under the same name with '
             'other ids in the same and in another shape, a second reduction below the same topdir selected by $RUN2D/run2d=); after '
@@ -431,6 +531,10 @@ class C16(Check):
                          # plate numbers that are prefixes of each other; header cards beside COEFF0/COEFF1
                          'req_mjd_omitted_prefix_plate_later_mjd_same_directory', 'req_mjd_omitted_prefix_plate_later_mjd_tree',
                          'req_five_digit_plate', 'req_five_digit_plate_mjd_omitted', 'req_five_digit_plate_all_fibres',
+                         # plate-MJD files that coincide under narrow or lossy keys, both named in one call; long object lists
+                         'req_plates_differ_65536_same_mjd', 'req_plates_differ_65536_same_mjd_mjd_omitted',
+                         'req_plates_differ_32768_same_mjd', 'req_plate_mjd_swapped_pair', 'req_plate_mjd_equal_sum',
+                         'req_long_vector_8_files',
                          'hdr_files_wcs_crpix', 'hdr_files_wcs_inconsistent', 'hdr_files_wcs_sdss',
                          'hdr_files_wcs_wat', 'hdr_files_other_hdus_repeat_coeff0',
                          # the survey tree changes between the calls of one process
@@ -485,6 +589,7 @@ class C16(Check):
                 'reuse': 28 if q else 280,
                 'twin': 6 if q else 100,
                 'history': 12 if q else 200,
+                'aliased': 8 if q else 240,
                 'append': 1500 if q else 30000,
                 'append_chain': 300 if q else 6000}
 
@@ -557,6 +662,31 @@ class C16(Check):
                 reqs += [a, b]
         elif cls == 'history':
             return self.gen_history(rng, i, kwsets)
+        elif cls == 'aliased':
+            # plate-MJDs that coincide under narrow / lossy keys, both files of a pair named in ONE call
+            allfib = i % 4 == 3
+            tree, pairs = gen_alias_tree(rng, 'sdss' if (i % 4 == 1) else 'boss', layout='flat' if i % 3 == 2 else 'tree',
+                                         allfib=allfib)
+            names = sorted(pairs)
+            kwof = lambda: (('path',) + rng.choice([(), ('run2d', 'run1d')])) if tree['layout'] == 'flat' else rng.choice(kwsets)
+            lat = _latest(tree['plates'])
+            islatest = lambda nm: all(lat[q] == m for q, m in pairs[nm])
+            reqs = []
+            for k, nm in enumerate(names):
+                reqs.append(gen_request(rng, tree, 'vvv', kw=kwof(), shadow='unset', per_file=rng.choice([1, 2]),
+                                        must=pairs[nm]))
+                if islatest(nm):
+                    st = ['vNv', 'vNs', 'all_vN' if allfib else 'vNv'][(i + k) % 3]
+                    reqs.append(gen_request(rng, tree, st, kw=kwof(), shadow='unset', must=pairs[nm]))
+                else:
+                    reqs.append(gen_request(rng, tree, 'vvs', kw=kwof(), shadow='unset', must=pairs[nm]))
+            # a long object list over every file of the tree
+            reqs.append(gen_request(rng, tree, 'vvv', kw=kwof(), shadow='unset', must=tree['plates'], long=True))
+            # each member of a pair on its own, the other one's file lying next to it
+            for q, m in pairs[names[i % len(names)]]:
+                reqs.append(gen_request(rng, dict(tree, plates=[f for f in tree['plates'] if f[0] == q and f[1] == m]),
+                                        rng.choice(['svv', 'sss', 'l1v']), kw=kwof(), shadow='unset'))
+            rng.shuffle(reqs)
         elif cls == 'allfibres':
             kind = 'sdss' if i % 2 == 0 else 'boss'
             tree = gen_tree(rng, kind, allfib=True, small=True, five_digit=(i % 4 in (0, 1)))
@@ -981,6 +1111,11 @@ class C16(Check):
                 pre = '%04d' % p
                 if any(q != p and ('%04d' % q).startswith(pre) and lat_all[q] > lat_all[p] for q in lat_all):
                     out.count('req_mjd_omitted_prefix_plate_later_mjd' + ('_same_directory' if 'path' in req['kw'] else '_tree'))
+        alias_counters(trip, out, req['mjd'] is None)
+        if n >= 100:
+            out.count('req_long_vector')
+            if nfiles >= 8:
+                out.count('req_long_vector_8_files')
         if any(p > 9999 for p in byplate):
             out.count('req_five_digit_plate')
             if req['mjd'] is None:
